@@ -5,7 +5,7 @@ The *call table* is the only place where a Rust callee is given a Lean meaning b
 another generated definition (`gen_…`, itself translated from the source) or to a model function (for callees that are
 not in the translated subset, e.g. `BitVector::select`, whose own correctness is the subject of Props/C01).
 """
-from rs2lean import U, W, B, U32, A, UNIT, translate, Unsupported
+from rs2lean import U, W, B, U32, A, UNIT, translate, Unsupported, find_fn
 
 BV = ("N", "BitVector")
 IV = ("N", "IntVector")
@@ -1340,6 +1340,37 @@ GROUPS.append(("FnsSelect.lean", ["Sds.Model.GenSupport", "Sds.Generated.BitsFns
 ]))
 
 
+# ---- `RLVector::predecessor`: its `FnMut` closure assigns the captured local `iterate`.  The closure is lambda-lifted (its text
+# is cut out of the function, the captured variables become parameters, the assigned one is threaded as state), `advance_if` is
+# translated once more with a STATE-PASSING closure parameter, and the call site threads `iterate` through it.
+PRED_CLOSURE = r"(?s)let _ = iter\.advance_if\(\|next\| \{(.*?)\}\);"
+
+
+def pred_closure_src(src):
+    import re as _re
+    body = find_fn(src, r"impl<'a> PredSucc<'a> for RLVector\b", "predecessor")[2]
+    ms = _re.findall(PRED_CLOSURE, body, flags=_re.S)
+    if len(ms) != 1:
+        raise Unsupported("closure of RLVector::predecessor not found exactly once")
+    return "fn predecessor_closure(iterate: bool, value: usize, next: Option<(usize, usize)>) -> bool {" + ms[0] + "}"
+
+
+GROUPS.append(("FnsRLPred.lean", ["Sds.Model.RL", "Sds.Generated.FnsRL"], [
+    runit("advance_if", True, name="gen_RunIter_advance_if_st", reader="cst", reader_ty="σ", ret=("O", PAIR),
+          source_subst=[],
+          pre_subst=[("advance(", "advance_st(cst, ")],
+          params={"advance": ("{σ : Type} (advance : σ → Option (Nat × Nat) → Outcome (Bool × σ)) (cst : σ)", "FPS", "advance")},
+          calls=dict(RUN_MUT, **{"advance_st": dict(lean="advance {0} {1}", ret=B, args=[None, ("O", PAIR)], load=True)})),
+    dict(file="rl_vector.rs", synth=pred_closure_src, impl=None, fn="predecessor_closure", name="gen_RLVector_predecessor_closure", reader="iterate", reader_ty="Bool",
+         params={"iterate": ("(iterate : Bool)", B, "iterate")}, params_extra={"iterate": ("iterate", B)}, calls={}),
+    rlq("predecessor", r"impl<'a> PredSucc<'a> for RLVector\b", ["v.data.len + 2"],
+        source_subst=[(PRED_CLOSURE, "let (iter_next, iterate_next) = advance_if_with_closure(iter, iterate, value); iter = iter_next; iterate = iterate_next;")],
+        calls=dict(RLQ_CALLS, **{"advance_if_with_closure": dict(
+            lean="(do let r ← gen_RunIter_advance_if_st m v {0} (fun st nx => gen_RLVector_predecessor_closure m st {2} nx) {1}; pure (r.1.2, r.2))",
+            ret=("T", [RUNIT, B]), args=[RUNIT, B, U])})),
+]))
+
+
 def generate_fn_files(read, consts_by_file):
     """read(rel) -> source text; consts_by_file: {rel: {NAME: int}} (module / associated constants visible in that file)"""
     files = {}
@@ -1349,7 +1380,7 @@ def generate_fn_files(read, consts_by_file):
         for cfg in fns:
             try:
                 parts.append("/-- `%s` of %s, translated from the source -/\n" % (cfg["fn"], cfg["file"])
-                             + translate(read(cfg["file"]), cfg, CALLS, consts_by_file.get(cfg["file"], {}),
+                             + translate(cfg["synth"](read(cfg["file"])) if cfg.get("synth") else read(cfg["file"]), cfg, CALLS, consts_by_file.get(cfg["file"], {}),
                                          dict(STRUCTS, **cfg.get("structs_over", {}))) + cfg.get("after", ""))
             except Unsupported as e:
                 # fail closed, but only for what depends on this function: the definition is left out, so the equation
